@@ -23,6 +23,7 @@ from vgi_rpc.rpc import (
     RpcError,
     ServerDrainingError,
     SessionLostError,
+    VersionError,
 )
 
 
@@ -93,8 +94,27 @@ class Outer:
         """__name__ (not __qualname__) goes on the wire."""
 
 
-def _arrow_invalid(message: str) -> BaseException:
-    return pa.ArrowInvalid(message)
+class C07TypeSub(TypeError):
+    """User-defined subclass of TypeError (a class the request-reading handlers answer with 400)."""
+
+
+class C07ArrowSub(pa.ArrowInvalid):
+    """User-defined subclass of pa.ArrowInvalid."""
+
+
+class C07OSSub(OSError):
+    """User-defined subclass of OSError."""
+
+
+class C07VersionSub(VersionError):
+    """User-defined subclass of VersionError."""
+
+
+class C07RpcErrorSub(RpcError):
+    """The implementation itself raises an RpcError (e.g. it is a client of another service)."""
+
+    def __init__(self, message: str) -> None:
+        super().__init__("InnerError", message, "")
 
 
 C07_EXC: dict[str, Any] = {
@@ -119,6 +139,11 @@ C07_EXC: dict[str, Any] = {
     "C07CustomStr": C07CustomStr,
     "Ünï_C07Error": Ünï_C07Error,
     "C07Nested": Outer.C07Nested,
+    "C07TypeSub": C07TypeSub,
+    "C07ArrowSub": C07ArrowSub,
+    "C07OSSub": C07OSSub,
+    "C07VersionSub": C07VersionSub,
+    "C07RpcErrorSub": C07RpcErrorSub,
     # typed (error_kind)
     "InterpKindError": I.InterpKindError,
     "C07KindError": C07KindError,
@@ -135,7 +160,7 @@ C07_EXC: dict[str, Any] = {
 }
 BUILTIN = ["ValueError", "RuntimeError", "KeyError", "TypeError", "ZeroDivisionError", "AssertionError", "OSError", "LookupError",
            "StopIteration", "NotImplementedError", "AttributeError", "ArrowInvalid"]
-USER = ["InterpUserError", "C07UserError", "C07TwoArgs", "C07NoArgs", "C07CustomStr", "Ünï_C07Error", "C07Nested", "C07IntKindError"]
+USER = ["C07TypeSub", "C07ArrowSub", "C07OSSub", "C07VersionSub", "C07RpcErrorSub", "InterpUserError", "C07UserError", "C07TwoArgs", "C07NoArgs", "C07CustomStr", "Ünï_C07Error", "C07Nested", "C07IntKindError"]
 TYPED_USER = ["InterpKindError", "C07KindError", "C07EmptyKindError", "C07UnicodeKindError", "C07InstanceKindError", "C07SubSessionLost"]
 TYPED_FRAMEWORK = ["ProtocolVersionError", "MethodNotImplementedError", "SessionLostError", "ServerDrainingError"]
 
